@@ -235,6 +235,13 @@ func consUnits(thorough bool) []*unit {
 			}})
 		}
 	}
+	// multi-part proposals: mutated aunts lists of the parts' merkle proofs
+	for _, st := range []string{stH1Propose, stH2Propose} {
+		st := st
+		add(&unit{State: st, Peer: peerKnown, Kind: "multipart", Msg: "BlockPart", Est: 3000, gen: func(w *worker, u *unit, emit func(*caseT)) {
+			genMultipart(w, st, emit)
+		}})
+	}
 	// sequences from one peer with a budget on what the node keeps on its behalf
 	for _, st := range allNodeStates {
 		for _, pm := range []string{peerFresh, peerKnown} {
